@@ -327,8 +327,16 @@ def config_strategy():
         passes = draw(st.lists(st.sampled_from(pass_names), max_size=4, unique=True))
         rules = []
         for j in range(draw(st.integers(0, 4))):
-            flag = f"--{flag_prefix}{j}"
-            kind = draw(st.sampled_from(["mode", "pass", "define", "split", "match", "match", "split"]))
+            # compiler options start with one dash more often than with two
+            flag = draw(st.sampled_from(["--", "-"])) + f"{flag_prefix}{j}"
+            kind = draw(st.sampled_from(["mode", "pass", "define", "split", "match", "match", "split", "matchmode"]))
+            if kind == "matchmode":
+                # extend_match feeding a list other than the passes, with and without override
+                r = {"flags": [flag], "action": "extend_match", "pattern": "m(\\d)", "format": "m$value", "dest": "modes"}
+                if draw(st.booleans()):
+                    r["override"] = draw(st.booleans())
+                rules.append(r)
+                continue
             if kind == "mode":
                 rules.append({"flags": [flag], "action": "append_const", "dest": "modes", "const": draw(st.sampled_from(mode_names))})
             elif kind == "pass":
@@ -409,16 +417,26 @@ def commands_for(draw, comps, user):
         flags = []
         if defn:
             for r in defn["parser"]:
-                f = draw(st.sampled_from(r["flags"])) if r["action"] == "store_split" and len(r["flags"]) > 1 and r["flags"][0].startswith("--") else r["flags"][0]
+                f = draw(st.sampled_from(r["flags"])) if r["action"] == "store_split" and len(r["flags"]) > 1 and r["flags"][0].lstrip("-").startswith(("f", "u")) else r["flags"][0]
                 if r["action"] == "append_const":
                     flags.append([f])
                 elif r["action"] == "store_split":
-                    v = draw(st.sampled_from(["1", "1,2", "3,1", "2", "9"])) if f.startswith("--") else draw(st.sampled_from(["spir64", "spir64,spir64_gen", "nvptx64-nvidia-cuda"]))
+                    v = draw(st.sampled_from(["1", "1,2", "3,1", "2", "9"])) if f.lstrip("-").startswith(("f", "u")) else draw(st.sampled_from(["spir64", "spir64,spir64_gen", "nvptx64-nvidia-cuda"]))
                     flags.append([f"{f}={v}"] if draw(st.booleans()) else [f, v])
+                elif r.get("dest") == "modes":
+                    v = draw(st.sampled_from(["m0", "m1,m2", "m2", "x", "m0,m1"]))
+                    flags.append([f"{f}={v}"] if draw(st.booleans()) else [f, v])
+                    if draw(st.booleans()):
+                        flags.append([f, draw(st.sampled_from(["m1", "m2"]))])  # the same flag again
                 else:
-                    v = draw(st.sampled_from(["v1", "v1,v2", "v3", "none", "v2,v9"])) if f.startswith("--f") or f.startswith("--u") else draw(st.sampled_from(["sm_70", "compute_80,sm_80", "sm_75,sm_90", "arch=compute_89,code=sm_89"]))
-                    flags.append([f"{f}={v}"] if (draw(st.booleans()) and f.startswith("--")) else [f, v])
+                    v = draw(st.sampled_from(["v1", "v1,v2", "v3", "none", "v2,v9"])) if f.lstrip("-").startswith(("f", "u")) else draw(st.sampled_from(["sm_70", "compute_80,sm_80", "sm_75,sm_90", "arch=compute_89,code=sm_89"]))
+                    flags.append([f"{f}={v}"] if (draw(st.booleans()) and f.lstrip("-").startswith(("f", "u"))) else [f, v])
         chosen = draw(st.lists(st.sampled_from(flags), max_size=5)) if flags else []
+        if defn and draw(st.integers(0, 3)) == 0:
+            # an argument that only starts like a declared flag is not that flag
+            decl = [f for r in defn["parser"] for f in r["flags"] if len(f) > 4 and f.lstrip("-").startswith(("f", "u"))]
+            if decl:
+                chosen = chosen + [[draw(st.sampled_from(decl))[:-1]]]
         base = draw(st.lists(st.sampled_from([["-DCMD"], ["-D", "CMD2=1"], ["-I/cmd/inc"], ["-isystem", "/cmd/sys"], ["-include", "cmd.h"], ["-I", "/shared/inc"]]), max_size=3))
         parts = chosen + base
         parts = draw(st.permutations(parts)) if parts else []
